@@ -8,7 +8,7 @@ impl Scru128Id {
     pub fn as_bytes(&self) -> &[u8; 16] { unimplemented!() }
     pub fn to_bytes(self) -> [u8; 16] { unimplemented!() }
     pub fn to_u128(&self) -> u128 { self.0 }
-    pub const fn from_bytes(_b: [u8; 16]) -> Self { unimplemented!() }
+    pub const fn from_bytes(b: [u8; 16]) -> Self { Scru128Id(u128::from_be_bytes(b)) }
     pub fn timestamp(&self) -> u64 { unimplemented!() }
 }
 impl From<u128> for Scru128Id { fn from(x: u128) -> Self { Scru128Id(x) } }
